@@ -213,6 +213,9 @@ func writeAnswer(c diam.Conn, a *diam.Message, act Action) error {
 	out := buf.Bytes()
 	if act.Kind == "dup" {
 		out = append(append([]byte{}, out...), out...)
+		if act.Us == 3 {
+			out = append(out, buf.Bytes()...) // three copies in one write
+		}
 	}
 	if act.Kind == "dupfail" {
 		// the answer, followed in the same write by a copy that carries a failure result code
@@ -1144,7 +1147,7 @@ func genAction(t *rapid.T, n string) Action {
 	case "held":
 		return Action{Kind: "held", Ms: rapid.SampledFrom([]int{0, 2000, 4800}).Draw(t, n+"HeldMs")}
 	case "dup":
-		return Action{Kind: "dup"}
+		return Action{Kind: "dup", Us: rapid.SampledFrom([]int{0, 3}).Draw(t, n+"Copies")}
 	case "boundary":
 		return Action{Kind: "boundary", Ms: 4999, Us: rapid.IntRange(-3000, 4000).Draw(t, n+"Us")}
 	case "slow":
@@ -1193,6 +1196,8 @@ func genBatch(t *rapid.T) Batch {
 	b.Scripts = append(b.Scripts,
 		Script{Steps: []Step{{Abmf: Action{Kind: "prompt"}, Reserve: Action{Kind: "dup"}}, {Abmf: Action{Kind: "prompt"}, Reserve: Action{Kind: "prompt"}}}},
 		Script{Steps: []Step{{Abmf: Action{Kind: "dup"}, Reserve: Action{Kind: "prompt"}}, {Abmf: Action{Kind: "prompt"}, Reserve: Action{Kind: "prompt"}}}})
+	b.Scripts = append(b.Scripts,
+		Script{Steps: []Step{{Abmf: Action{Kind: "dup", Us: 3}, Reserve: Action{Kind: "prompt"}}, {Abmf: Action{Kind: "prompt"}, Reserve: Action{Kind: "dup", Us: 3}}, {Abmf: Action{Kind: "prompt"}, Reserve: Action{Kind: "prompt"}}}})
 	// an answer read in time by the connection's reader but handed over only when the next request is waiting
 	b.Scripts = append(b.Scripts,
 		Script{Steps: []Step{{Abmf: Action{Kind: "held", Ms: 4800}, Reserve: Action{Kind: "prompt"}}, {Abmf: Action{Kind: "prompt"}, Reserve: Action{Kind: "prompt"}}}},
